@@ -467,3 +467,107 @@ Fixpoint run (W maxKnown : N) (s : net) (evs : list ev) : net * list (N * option
 
 Definition init_node (self : addr) : node := mkNode self svc_empty 0 [].
 Definition init_net (selfs : list addr) : net := mkNet (map init_node selfs) [] 0.
+
+(** * interleavings of [add] with the disconnect handling
+
+    [Group.add] as coded: [g.mux.Lock()]; for [keep = true] the call
+    [g.srv.route.IsNeighbor(peer)] — made while holding the lock —; the list
+    updates; unlock.  The loop of [Start] handles one PeerStateDisconnect at a
+    time: it takes the notification, snapshots [getGroupAll()] and calls
+    [g.remove(peer, true)] group by group, each call taking that group's lock.
+    The environment (a peer stops being a neighbour) needs no lock.
+
+    [cstep false] is the code as it is.  [cstep true] is the variant in which
+    the neighbour lookup is made BEFORE the lock is taken and the saved answer
+    is used inside (refuted in ProofsConc). All other registry events stay
+    atomic ([CAtomic]); [GProcDisconnect] is replaced by [CHPop]/[CHVisit]. *)
+
+Record athread := mkThr {
+  a_obj : nat;            (* the Group object the add works on *)
+  a_peer : addr;
+  a_keep : bool;
+  a_locked : bool;        (* holds g.mux *)
+  a_read : option bool }. (* the answer of IsNeighbor, once asked *)
+
+Record cstate := mkC {
+  c_svc : svc;
+  c_adds : list athread;                 (* add calls in progress *)
+  c_hand : option (addr * list nat) }.   (* disconnect handler: peer, groups still to visit *)
+
+Inductive cev :=
+| CAtomic (e : gev)
+| CAddStart (i : nat) (p : addr) (keep : bool)   (* an add on object i begins *)
+| CAddRead (k : nat)                             (* thread k asks IsNeighbor *)
+| CAddLock (k : nat)                             (* thread k acquires g.mux (lookup-before-lock variant only) *)
+| CAddCommit (k : nat)                           (* thread k updates the lists and unlocks *)
+| CHPop                                          (* the loop of Start takes the next notification *)
+| CHVisit.                                       (* ... and removes the peer from the next group *)
+
+Definition lock_free (i : nat) (ts : list athread) : bool :=
+  negb (existsb (fun t => a_locked t && Nat.eqb (a_obj t) i) ts).
+
+Definition cstep (early : bool) (mk : N) (c : cstate) (e : cev) : cstate :=
+  match e with
+  | CAtomic GProcDisconnect => c
+  | CAtomic ge => mkC (gstep mk (c_svc c) ge) (c_adds c) (c_hand c)
+  | CAddStart i p keep =>
+      if negb (i <? length (heap (c_svc c)))%nat then c   (* the add works on an existing Group object *)
+      else if early then
+        mkC (c_svc c) (c_adds c ++ [mkThr i p keep false (Some (keep && is_nbr (c_svc c) p))]) (c_hand c)
+      else if lock_free i (c_adds c) then
+        mkC (c_svc c) (c_adds c ++ [mkThr i p keep true None]) (c_hand c)
+      else c
+  | CAddRead k =>
+      match nth_error (c_adds c) k with
+      | Some t =>
+          match a_locked t, a_read t with
+          | true, None =>
+              mkC (c_svc c)
+                  (upd_nth k (fun t => mkThr (a_obj t) (a_peer t) (a_keep t) true
+                                             (Some (a_keep t && is_nbr (c_svc c) (a_peer t)))) (c_adds c))
+                  (c_hand c)
+          | _, _ => c
+          end
+      | None => c
+      end
+  | CAddLock k =>
+      match nth_error (c_adds c) k with
+      | Some t =>
+          if negb (a_locked t) && lock_free (a_obj t) (c_adds c) then
+            mkC (c_svc c)
+                (upd_nth k (fun t => mkThr (a_obj t) (a_peer t) (a_keep t) true (a_read t)) (c_adds c))
+                (c_hand c)
+          else c
+      | None => c
+      end
+  | CAddCommit k =>
+      match nth_error (c_adds c) k with
+      | Some t =>
+          let go (b : bool) :=
+            mkC (on_obj (a_obj t) (g_add b (a_peer t) (a_keep t)) (c_svc c)) (remove_nth k (c_adds c)) (c_hand c) in
+          if a_locked t then
+            match a_read t with
+            | Some b => go b
+            | None => if a_keep t then c else go false   (* keep = false never asks *)
+            end
+          else c
+      | None => c
+      end
+  | CHPop =>
+      match c_hand c, pend (c_svc c) with
+      | None, p :: r =>
+          let s := c_svc c in
+          mkC (mkSvc (heap s) (gmap s) (pgs s) (nbrs s) r) (c_adds c) (Some (p, map snd (gmap s)))
+      | _, _ => c
+      end
+  | CHVisit =>
+      match c_hand c with
+      | Some (p, i :: r) =>
+          if lock_free i (c_adds c) then mkC (obj_remove i p true (c_svc c)) (c_adds c) (Some (p, r)) else c
+      | Some (_, []) => mkC (c_svc c) (c_adds c) None
+      | None => c
+      end
+  end.
+
+Definition crun (early : bool) (mk : N) (c : cstate) (evs : list cev) : cstate := fold_left (cstep early mk) evs c.
+Definition cinit : cstate := mkC svc_empty [] None.
